@@ -779,6 +779,32 @@ fn ntt_boundary_v<V: Fv>(ctx: &Ctx, rep: &mut Report) {
     }
 }
 
+/// verify as the FIRST crate operation of a fresh process, by several threads at once (see
+/// cold.rs), on crafted triples with a known verdict.
+pub fn cold_start(ctx: &Ctx, rep: &mut Report) {
+    let mut rng = rng_for(ctx.seed, "c02-cold");
+    let mut triples: Vec<Vec<String>> = vec![];
+    for i in 0..16 {
+        let (n, bound, l, hdr) = if i % 2 == 0 { (512usize, F512::BOUND, 625usize, 0x59u8) } else { (1024, F1024::BOUND, 1239, 0x5a) };
+        let d = [0i64, 1, -1, 12289][i / 2 % 4];
+        if let Some(c) = craft_exact(n, bound + d, (i % 4) as u32, &mut rng) {
+            if let Some(body) = spec::compress(&c.s2, l) {
+                let mut sb = vec![hdr];
+                sb.extend_from_slice(&c.salt);
+                sb.extend_from_slice(&body);
+                triples.push(vec![n.to_string(), hex(&c.msg), hex(&sb), hex(&spec::pk_encode(&c.h)), (c.norm <= bound).to_string()]);
+            }
+        }
+    }
+    if triples.is_empty() {
+        rep.inconclusive("no crafted triples".into());
+        return;
+    }
+    let t = &triples;
+    super::cold::parent(ctx, "C02", &["verify"], &[1], ctx.sz(300, 4000), &|i| t[i % t.len()].clone(), rep);
+    rep.require("cold_start_processes", 60);
+}
+
 pub fn boundary(ctx: &Ctx, rep: &mut Report) {
     collisions_v::<F512>(ctx, rep);
     collisions_v::<F1024>(ctx, rep);
